@@ -141,7 +141,9 @@ func stacklessWriteBrotli(ctx any) {
 	stacklessWriteBrotliOnce.Do(func() {
 		stacklessWriteBrotliFunc = stackless.NewFunc(nonblockingWriteBrotli)
 	})
-	stacklessWriteBrotliFunc(ctx)
+	if !stacklessWriteBrotliFunc(ctx) {
+		nonblockingWriteBrotli(ctx)
+	}
 }
 
 func nonblockingWriteBrotli(ctxv any) {
